@@ -165,6 +165,38 @@ def run(prog, rep, tier):
         calls = [bb['t']['callee'] for bb in b['blocks'] if bb['t'] and bb['t']['k'] == 'call' and bb['t']['callee']]
         ok = any(c.get('item') == 'encode' and (c.get('rcrate') == 'hex') for c in calls) and any(c.get('item') == 'serialize_str' for c in calls)
     rep.check(ok, 'R-frame', 'as_hex#hex-encode', ashex[0]['file'] if ashex else '-', 'as_hex does not write hex::encode(frame) as a string')
+    # the whole frame is encoded: the argument of hex::encode is the `data` parameter itself (through
+    # copies, re-borrows and derefs only), not a sub-slice or a value computed from it
+    import dataflow
+    whole = False
+    why = 'no hex::encode call'
+    for b in ashex:
+        for bb in b['blocks']:
+            t = bb['t']
+            if not (t and t['k'] == 'call' and t['callee'] and t['callee'].get('item') == 'encode' and t['callee'].get('rcrate') == 'hex'):
+                continue
+            cur = t['args'][0]['pl']['l'] if t['args'][0]['k'] != 'const' else None
+            why = 'argument is a constant'
+            for _ in range(12):
+                if cur is None:
+                    break
+                if cur == 1:
+                    whole = True
+                    break
+                defs = [s_ for bb2 in b['blocks'] for s_ in bb2['s'] if s_['k'] == 'assign' and s_['pl']['l'] == cur and not s_['pl']['p']]
+                cdefs = [bb2['t'] for bb2 in b['blocks'] if bb2['t'] and bb2['t']['k'] == 'call' and bb2['t']['dest']['l'] == cur]
+                if cdefs:
+                    why = 'the encoded value is the result of %s, not the frame itself' % ((cdefs[0]['callee'] or {}).get('name') or 'a call')
+                    break
+                if len(defs) != 1 or defs[0]['rv']['k'] not in ('use', 'ref', 'cast', 'rawptr'):
+                    why = 'the encoded value is computed (%s)' % (defs[0]['rv']['k'] if defs else 'no definition')
+                    break
+                pls = dataflow.rvalue_places(defs[0]['rv'])
+                if len(pls) != 1 or any(p_[0] != 'deref' for p_ in pls[0]['p']):
+                    why = 'the encoded value is a part of the frame (projection %s)' % (pls[0]['p'] if pls else '-')
+                    break
+                cur = pls[0]['l']
+    rep.check(whole, 'R-frame', 'as_hex#whole-frame', ashex[0]['file'] if ashex else '-', 'as_hex must encode every byte of the frame: ' + why, nontrivial=True)
     # templates of the two address writers
     tmpl = {}
     for nm in ('decode::ICAO', 'decode::IcaoParity'):
